@@ -689,7 +689,12 @@ pub fn gen_struct2(rng: &mut Rng, cfg: &GenCfg, depth: usize, byval: &[String], 
 }
 
 pub fn gen_comment(rng: &mut Rng) -> String {
-    let bodies = ["", " doc", " Ünïcödé 日本語 😀", " tab\there", "# double", " trailing space ", " \u{1b}[31mred\u{1b}[0m", " interface x.y", " method F() -> ()", "\u{00a0}nbsp", " a: int, (", " -> ) )"];
+    // (the last four end in characters whose UTF-8 encoding ends in byte 0xA0 / 0x80 / 0xBF or in
+    // a layout character: whatever trims documentation blocks must do it by characters)
+    let bodies = [
+        "", " doc", " Ünïcödé 日本語 😀", " tab\there", "# double", " trailing space ", " \u{1b}[31mred\u{1b}[0m", " interface x.y", " method F() -> ()", "\u{00a0}nbsp", " a: int, (", " -> ) )",
+        " voil\u{e0}", " dagger \u{2020}", " ends with nbsp\u{a0}", " \u{20ac}\u{ff}",
+    ];
     format!("#{}", rng.pick(&bodies))
 }
 
